@@ -1,4 +1,13 @@
 import Stackage.Driver.Hist
+import Stackage.Driver.Render
+import Stackage.Driver.Cond
+import Stackage.Driver.Marshal
+import Stackage.Driver.Traverse
+import Stackage.Driver.Alias
+import Stackage.Driver.Opts
+import Stackage.Driver.Sweep
+import Stackage.Driver.Defrag
+import Stackage.Driver.Reveal
 import Stackage.Driver.Equal
 
 /-! Correspondence driver: case lines on stdin, `<id> M <model>` and `<id> S <spec>` lines on stdout. -/
@@ -6,7 +15,18 @@ import Stackage.Driver.Equal
 open Stackage.Driver
 
 def dispatch (stream payload : String) : String × String × String :=
-  if ["hist", "histx", "capx", "nest", "pol", "xfer"].contains stream then runHist payload
+  if ["hist", "histx", "capx", "nest", "pol", "xfer", "awk"].contains stream then runHist payload
+  else if stream == "render" then runRender payload
+  else if stream == "strunit" then runStrUnit payload
+  else if stream == "condhist" then runCondHist payload
+  else if stream == "roundtrip" then runRoundtrip payload
+  else if stream == "anytrees" then runAnyTrees payload
+  else if stream == "paths" then runPaths payload
+  else if stream == "alias" then runAlias payload
+  else if stream == "opts" then runOpts payload
+  else if ["frozen", "inert", "queries"].contains stream then runSweep payload
+  else if stream == "nilpat" then runDefrag payload
+  else if stream == "revealtrees" then runReveal payload
   else if stream == "eqpair" then runEq false payload else if stream == "equnit" then runEq true payload
   else ("NOSTREAM", "NOSTREAM", "")
 
